@@ -87,7 +87,7 @@ CONTRACTS = [
     ),
     OpContract(
         name="timeout_with_mapper", props=["C17", "C09"], file=OPS + "_timeoutwithmapper.py", func="timeout_with_mapper_",
-        call="timeout_with_mapper_(first_timeout, mapper, other)(source)", params={"mapper": "callback:source"},
+        call="timeout_with_mapper_(first_timeout, mapper, other)(source)", params={"mapper": "opt:callback:source"},  # the mapper may be omitted
         sources=("source", "other", "first_timeout"),
         spec="specs.c17:timeout_with_mapper",
         cells={"switched": "bool", "_id": "cell:int", "timer.current": "optdisp"},
